@@ -4,7 +4,7 @@ import os, subprocess, sys
 sys.path.insert(0, os.path.dirname(os.path.abspath(__file__)))
 from lib import gen, kani_run
 hs = kani_run.discover()
-for profile in ("real", "model"):
+for profile in kani_run.PROFILES:
     g = [h for h in hs if h.profile == profile]
     if not g:
         continue
